@@ -312,6 +312,14 @@ pub fn build_from(l: &Layout, gf: Vec<GenField>, local: &mut Local, shape: &str)
                 );
                 return None;
             }
+            Canon::BlankLine(b) => {
+                local.violation(
+                    format!("C03|field|serialised-with-a-blank-line|{}", f.tag),
+                    format!("field {}: a content in the documented format without any empty line is serialised as {:?}, which leaves a blank line in the text block", f.tag, b.chars().take(60).collect::<String>()),
+                    || json!({"tag": f.tag, "content": f.content}),
+                );
+                return None;
+            }
             Canon::Panic => return None,
         }
     }
